@@ -184,3 +184,25 @@ theorem countP_sorted_group (p : Diag → Bool) (all others grp : List Diag)
   omega
 
 end Aidl
+
+namespace Aidl
+
+theorem stableSortBy_of_sorted {α} (key : α → Nat) (l : List α) (h : SortedBy key l) :
+    stableSortBy key l = l := by
+  apply sorted_ext key _ _ (stableSortBy_sorted key l) h
+  intro k
+  exact stableSortBy_filter key l k
+
+/-- the stable sort commutes with filtering -/
+theorem stableSortBy_filter_comm {α} (key : α → Nat) (l : List α) (p : α → Bool) :
+    (stableSortBy key l).filter p = stableSortBy key (l.filter p) := by
+  apply sorted_ext key
+  · exact List.Pairwise.sublist List.filter_sublist (stableSortBy_sorted key l)
+  · exact stableSortBy_sorted key _
+  · intro k
+    rw [stableSortBy_filter, List.filter_filter, List.filter_filter]
+    have : (fun a => decide (key a = k) && p a) = (fun a => p a && decide (key a = k)) := by
+      funext a; exact Bool.and_comm _ _
+    rw [this, ← List.filter_filter, stableSortBy_filter, List.filter_filter]
+
+end Aidl
